@@ -142,10 +142,14 @@ func (c *Client) fetchMetadata(
 	callback func(meta *rdr.MetaData, err error),
 ) {
 	log.Debugf("consume: fetching object metadata %s", name)
+	// copy name instead of appending to it: the slice is the caller's, and when it has spare capacity
+	// append would overwrite the caller's memory behind it, and the queued Interest (kept for
+	// retransmission) would change whenever the caller appends to its own slice
+	mname := make(enc.Name, 0, len(name)+1)
+	mname = append(append(mname, name...),
+		enc.NewStringComponent(enc.TypeKeywordNameComponent, "metadata"))
 	args := ExpressRArgs{
-		Name: append(name,
-			enc.NewStringComponent(enc.TypeKeywordNameComponent, "metadata"),
-		),
+		Name: mname,
 		Config: &ndn.InterestConfig{
 			CanBePrefix: true,
 			MustBeFresh: true,
